@@ -98,7 +98,7 @@ func (r *Reliable) initiate(req bool) {
 		for {
 			r.l.Lock()
 			switch r.tubeState {
-			case initiated:
+			case initiated, closeWait:
 				r.l.Unlock()
 				break initLoop
 			case created:
@@ -126,7 +126,10 @@ func (r *Reliable) initiate(req bool) {
 	}
 
 	r.l.Lock()
-	if r.tubeState != initiated {
+	// The peer's FIN may already have been processed (closeWait) between the
+	// initiation frame and this point; the sender is still needed to
+	// acknowledge it and to send our own FIN.
+	if r.tubeState != initiated && r.tubeState != closeWait {
 		r.l.Unlock()
 		return
 	}
